@@ -48,9 +48,23 @@ type StructDataProvider struct {
 	tag   *string
 }
 
+// fieldByName is reflect.Value.FieldByName without its panic on a nil embedded pointer: a field promoted
+// through a nil embedded struct pointer is simply absent
+func (s *StructDataProvider) fieldByName(key string) (reflect.Value, bool) {
+	sf, ok := s.value.Type().FieldByName(key)
+	if !ok {
+		return reflect.Value{}, false
+	}
+	field, err := s.value.FieldByIndexErr(sf.Index)
+	if err != nil || !field.CanInterface() {
+		return reflect.Value{}, false
+	}
+	return field, true
+}
+
 func (s *StructDataProvider) Get(key string) any {
-	field := s.value.FieldByName(key)
-	if !field.IsValid() || !field.CanInterface() {
+	field, ok := s.fieldByName(key)
+	if !ok {
 		return nil
 	}
 	return field.Interface()
@@ -62,8 +76,8 @@ func (s *StructDataProvider) GetByField(field reflect.StructField, fallback stri
 }
 
 func (s *StructDataProvider) GetNestedProvider(key string) DataProvider {
-	field := s.value.FieldByName(key)
-	if !field.IsValid() || !field.CanInterface() {
+	field, ok := s.fieldByName(key)
+	if !ok {
 		return nil
 	}
 	dataProvider, _ := TryNewAnyDataProvider(field.Interface())
